@@ -328,6 +328,39 @@ func c14Health(r *zsim.Run) {
 		r.Failf("failing-backend-not-avoided", "with %d backends the always-failing one received %d of 1000 picks while the least used healthy one received %d", n, badPicks, minHealthy)
 		return
 	}
+	if o.Intn(2) == 0 {
+		// phase 3: the backend recovers while traffic goes on at a high rate (four callers back to back): with
+		// every completion acceptable its score must come back
+		bes[bad].mode = 0
+		before, s0 := bes[bad].dones, p.conns[bad].success
+		start := r.Now()
+		callers, doneCnt := 4, 0
+		for c := 0; c < callers; c++ {
+			who := fmt.Sprintf("h3-%d", c)
+			r.Go(who, func() {
+				defer func() { doneCnt++ }()
+				for r.Now() < start+30*time.Second && !r.Failed() {
+					if !c14Cycle(r, p, ids, bes, o, who) {
+						return
+					}
+				}
+			})
+		}
+		if !r.WaitFor(time.Hour, time.Second, func() bool { return doneCnt == callers }) {
+			r.Failf("callers-stuck", "callers did not finish: %v", r.Alive(false))
+			return
+		}
+		if r.Failed() {
+			return
+		}
+		got := bes[bad].dones - before
+		r.Logf("phase3 recovered backend completed %d calls in 30s, success %d -> %d", got, s0, p.conns[bad].success)
+		if got >= 300 && !p.conns[bad].healthy() {
+			r.Failf("recovered-backend-stays-unhealthy", "backend %d recovered: %d acceptable completions in 30s of sustained traffic (latency %v), but its success score went from %d to only %d and it still counts as unhealthy", bad, got, lat, s0, p.conns[bad].success)
+			return
+		}
+		r.Probe("recovery_checked")
+	}
 	c14Inflight(r, p, bes)
 }
 
